@@ -289,7 +289,9 @@ func (m *M) SMarshal(a int) {
 // scalar decode error classes, calibrated once per run from the three documented rejections
 var errClassMsg [4]string
 
-func (m *M) calibrateScalarErrors() {
+// learnScalarErrors records the messages of the three documented rejections (empty, wrong length,
+// too big); later errors are classified against them.  Returns whether they are pairwise distinct.
+func learnScalarErrors() bool {
 	s := secp256k1.NewScalar()
 	e1 := s.Decode(nil)
 	e2 := s.Decode(make([]byte, 31))
@@ -301,7 +303,11 @@ func (m *M) calibrateScalarErrors() {
 		distinct = msgs[1] != msgs[2] && msgs[1] != msgs[3] && msgs[2] != msgs[3]
 	}
 	errClassMsg = msgs
-	m.emit("SErrClasses", kv{"distinct", distinct})
+	return distinct
+}
+
+func (m *M) calibrateScalarErrors() {
+	m.emit("SErrClasses", kv{"distinct", learnScalarErrors()})
 }
 
 func errClass(err error) int {
